@@ -59,8 +59,24 @@ def sink_rules(ctx, prefix, modules=None, floor=None):
                       f"write sink {s.kind} on `{norm(s.path_node)[:60]}` can be {sorted(inside)}: it creates/modifies/"
                       f"removes something inside an input plotfile or checkpoint", key=s.key, where=loc(fi, s.node),
                       objects={"classes": sorted(s.classes)})
+        pm = parents(fi.node)
         for o, mode in opens:
             if set(mode) & paths.WRITE_MODES or mode == "?":
+                # X5: a handle opened for writing is closed deterministically (with-statement, or an explicit close
+                # of the name it is bound to): an I/O error of the final flush then raises in the tool instead of
+                # being swallowed when the handle is garbage-collected
+                par = pm.get(o)
+                managed = isinstance(par, ast.withitem) and par.context_expr is o
+                if not managed and isinstance(par, ast.Assign) and len(par.targets) == 1 and isinstance(par.targets[0], ast.Name):
+                    h = par.targets[0].id
+                    managed = any(isinstance(c, ast.Call) and norm(c.func) == f"{h}.close" for c in ast.walk(fi.node)) or \
+                        any(isinstance(w, ast.withitem) and norm(w.context_expr) == h for w in ast.walk(fi.node))
+                ctx.check(managed, f"{prefix}.X5", fi.site,
+                          f"write handle on `{norm(o.args[0])[:40]}` is closed by a with-statement / explicit close",
+                          f"`{norm(o)[:70]}` opens a file for writing but the handle is neither managed by a "
+                          f"with-statement nor closed: its last buffered bytes are written when the object is collected, "
+                          f"where an I/O error (disk full, quota) is swallowed — the tool returns normally with a "
+                          f"truncated output", key=f"close:{norm(o.args[0])[:40]}", where=loc(fi, o), semantic=True)
                 continue
             ctx.ok(f"{prefix}.W0", fi.site, f"open `{norm(o.args[0])[:40]}` is read-only ({mode})",
                    key=f"open:{norm(o.args[0])[:40]}")
